@@ -32,7 +32,7 @@ def main():
         m = json.load(open(os.path.join(d, "meta.json")))
         m["confirmed_by_coordinator"] = {"ran": "harness/seedtest.py confirm: scratch worktree of /repo HEAD, git apply, MontePy suite "
                                          "(404 must pass), demo.py without (exit 0) and with the change (exit 1)", **conf}
-        m["origin"] = "fresh sub-agent (third round) given only the property record, one-line summaries of earlier changes to avoid, and a scratch worktree"
+        m["origin"] = "fresh sub-agent (later round) given only the property record, one-line summaries of earlier changes to avoid, and a scratch worktree"
         json.dump(m, open(os.path.join(dst, "meta.json"), "w"), indent=1)
         kept.append(n)
     for n in kept:
